@@ -44,6 +44,23 @@ Proof.
 Qed.
 Print Assumptions c03_then_c01.
 
+(** Several edits of one JobConfig between two ticks: whatever is in flight, the re-base at
+    the start of the next tick processes the flushes in arrival order, so the entry of every
+    flushed key is that of the LAST object flushed for it (first fire time of that object's
+    schedule strictly after the tick's clock, or no entry); keys without a flush keep theirs *)
+Theorem c03_last_update_wins :
+  forall now chan n h h1 chan1,
+    (length chan <= n)%nat -> Forall jc_sorted chan -> keys_nodup h ->
+    refresh n h chan now = (h1, chan1) ->
+    chan1 = [] /\ keys_nodup h1 /\
+    forall k, h_find k h1 =
+      match last_flush k chan with
+      | Some jc => first_after now (fires_of jc)
+      | None => h_find k h
+      end.
+Proof. exact refresh_spec. Qed.
+Print Assumptions c03_last_update_wins.
+
 (** disabling / removing the cron schedule: the flushed object has no fire times, so
     the key leaves the heap *)
 Theorem c03_stop_on_disable :
